@@ -318,6 +318,14 @@ func vC05Term(s *vC05Script, res vC05Result) string {
 	return fmt.Sprintf("((%d%%nat, %d%%nat, %d, %s, %s), %s)", s.Q, s.NP, s.NCid, cqList(pins), vC05CoqPairs(s.Daemon), cqList(steps))
 }
 
+// the shared vRand is a counter-based generator whose state is seed*G + c: seeds k and k+1 give the same stream shifted by
+// one step. Mixing the seed first makes the streams of different seeds unrelated.
+func vC05Mix(z uint64) uint64 {
+	z = (z ^ (z >> 30)) * 0xBF58476D1CE4E5B9
+	z = (z ^ (z >> 27)) * 0x94D049BB133111EB
+	return z ^ (z >> 31) ^ 0x5851F42D4C957F2D
+}
+
 func TestVerifC05(t *testing.T) {
 	logging.SetAllLoggers(logging.LevelFatal)
 	seed := uint64(vEnvInt("VERIF_SEED", 1))
@@ -333,7 +341,7 @@ func TestVerifC05(t *testing.T) {
 	}
 	out := newVOut(prop, imports, "case", "Definition R := Eval vm_compute in failing cases.\nPrint R.")
 	defer out.close()
-	r := newVRand(seed)
+	r := newVRand(vC05Mix(seed))
 	emit := func(s *vC05Script, res vC05Result) {
 		for _, d := range res.direct {
 			b, _ := json.Marshal(map[string]interface{}{"signature": "tracker-rig-" + strings.SplitN(d, ":", 2)[0], "detail": d, "case": map[string]interface{}{"input": s}})
